@@ -1010,9 +1010,17 @@ func (t *txattrwalk) handle(cs *connState) message {
 			return linux.EINVAL
 		}
 		size = len(buf)
+
+		// The new fid needs a File of its own: the File of a fid is closed
+		// when its last reference goes away, which must not close the File
+		// that t.fid keeps using.
+		_, xf, err := ref.file.Walk(nil)
+		if err != nil {
+			return err
+		}
 		newRef := &fidRef{
 			server: cs.server,
-			file:   ref.file,
+			file:   xf,
 			pendingXattr: pendingXattr{
 				op:   xattrWalk,
 				name: t.Name,
